@@ -1427,6 +1427,11 @@ func NewPointFromBytes(b []byte) (Point, error) {
 	var hasField bool
 	for iter.Next() {
 		if len(iter.FieldKey()) == 0 {
+			// Skipped as a field, but its value must still be well formed:
+			// the storage engine reads every field of the point.
+			if v := p.it.valueBuf; iter.Type() == String && (len(v) < 2 || v[len(v)-1] != '"') {
+				return nil, fmt.Errorf("unable to unmarshal field with empty key: unterminated string")
+			}
 			continue
 		}
 		hasField = true
